@@ -19,7 +19,8 @@ mode=sched|conc — one key, versions are one byte repeated:
 
 Tie: the model `Pithos.ObjectCache.stepCached` (parameterised by the regenerated override table) must
 predict every read's result and whether the inner storage was asked; with an evicting cache policy the
-model may first drop the entries of the key (`Op.evict`). Scripted schedules 0/1 are compared with
+model may first drop the entries of the key (`Op.evict`) — every such explanation of an observation is kept
+(join), none is committed to early. Scripted schedules 0/1 are compared with
 `Conc.run false` on the same schedule.
 Judge: the property itself — mw = in for every sequential read; for overlapping reads the body is the
 complete body of the version whose ETag and size were returned.
@@ -186,10 +187,15 @@ def SeqSt.read (s : SeqSt) (p : Params) (evicting directed : Bool) (t : List Str
   let op : Op := if kind == "head" then .head key cnd else .get key cnd (kind == "get")
   let cands : List (List Key × List Key) :=
     if evicting then [([], []), ([], [key]), ([key], []), ([key], [key])] else [([], [])]
+  -- With an evicting policy an observation can have several explanations (a failed conditional GetObject that
+  -- went to the inner storage says that the head OR the body entry was gone, not which). All of them are kept:
+  -- the model cache after the read is the JOIN of the caches of every candidate that explains the observation
+  -- (an entry is dropped only if every explanation drops it).
   let mut matched := false
+  let mut joined : Cache := s.cache
   let mut firstPred := ""
   for (eh, eb) in cands do
-    if !matched then
+    if true then
       let c0 := (stepCached I p () s.cache (.evict eh eb)).1.2
       let hit := if kind == "head" then (c0.head key).isSome else (c0.head key).isSome && (c0.body key).isSome
       let predCalls := if hit then "0,0" else if kind == "head" then "1,0" else "0,1"
@@ -203,9 +209,16 @@ def SeqSt.read (s : SeqSt) (p : Params) (evicting directed : Bool) (t : List Str
         else pred.noKey == mw.noKey
       if firstPred == "" then firstPred := s!"{headTok pred}/calls={predCalls}"
       if same && predCalls == calls then
+        let c1 := r.1.2
+        if matched then
+          let j := joined
+          joined := { head := fun k => (j.head k).orElse (fun _ => c1.head k), body := fun k => (j.body k).orElse (fun _ => c1.body k) }
+          s := s.stat "ambiguous_eviction_explanations"
+        else
+          joined := c1
+          if !eh.isEmpty || !eb.isEmpty then s := s.stat "evictions_inferred"
         matched := true
-        s := { s with cache := r.1.2 }
-        if !eh.isEmpty || !eb.isEmpty then s := s.stat "evictions_inferred"
+  if matched then s := { s with cache := joined }
   if !matched then
     s := { s with div := s.div ++ [s!"{where_}:model={firstPred}:impl={headTok mw}/calls={calls}"] }
     -- resynchronise: forget the key
